@@ -128,6 +128,7 @@ func c06(c *core.Check) {
 	c06Trivia(c)
 	c06Rewind(c)
 	c06BadURL(c)
+	c06CommentEOF(c)
 
 	// ---- R1 preprocessing
 	r1 := c.Rule("R1", "Tokenize preprocesses its input as CSS Syntax §3.3: U+0000 becomes U+FFFD, and CRLF, CR and FF become LF, the CRLF replacement coming before the CR one (otherwise CRLF becomes two newlines)", 5)
